@@ -616,3 +616,83 @@ def transform_patterns(tier, seed):
         res.findings.append(Finding(key=f"transform.patterns:{what}:{mode}", text=f"pattern {text!r} of parse_svg_transform breaks its contract ({contract}); witness {u!r}" + (f"; {why}" if why else ""),
                                     replay=dict(pattern=text, witnesses=[w[0] for w in r["witnesses"]][:8], detail=why), confirmed=confirmed))
     return res
+
+
+# ------------------------------------------------------------------- the element-path allow-list of the final gate (C01, C17)
+def _gate_patterns():
+    """(default patterns, allow_text-only patterns): string constants of checkpicosvg that describe element paths, from its AST"""
+    import ast
+    import inspect
+    import textwrap
+
+    from picosvg.svg import SVG
+
+    tree = ast.parse(textwrap.dedent(inspect.getsource(SVG.checkpicosvg)))
+    text_only = set()
+    for n in ast.walk(tree):
+        if isinstance(n, ast.If) and any(isinstance(x, ast.Name) and x.id == "allow_text" for x in ast.walk(n.test)):
+            for st in n.body:
+                for c in ast.walk(st):
+                    if isinstance(c, ast.Constant) and isinstance(c.value, str) and "/svg" in c.value and "\\[" in c.value:
+                        text_only.add(c.value)
+    every = {c.value for c in ast.walk(tree) if isinstance(c, ast.Constant) and isinstance(c.value, str) and "/svg" in c.value and "\\[" in c.value}
+    return sorted(every - text_only), sorted(text_only)
+
+
+def _path_language(allow_text):
+    N = rx.Seq(rx.Chars("["), rx.Plus(rx.Chars("0123456789")), rx.Chars("]"))
+    seg = lambda *names: rx.Seq(rx.Chars("/"), rx.Alt(*[rx.Word(n) for n in names]), N)
+    root = rx.Word("/svg[0]")
+    defs = rx.Seq(root, rx.Word("/defs[0]"))
+    alts = [root, defs, rx.Seq(defs, seg("linearGradient", "radialGradient"), rx.Opt(seg("stop"))), rx.Seq(root, rx.Plus(seg("path", "g")))]
+    if allow_text:
+        alts.append(rx.Seq(root, rx.Plus(seg("text", "textPath")), rx.Star(seg("text", "tspan", "textPath"))))
+    return rx.Alt(*alts)
+
+
+PATH_SIGMA = "/[]0123456789abcdefghijklmnopqrstuvwxyzABCDEFGHIJKLMNOPQRSTUVWXYZ-._:"
+
+
+@component(("C01", "C17"), "gate.allowlist", "static")
+def gate_allowlist(tier, seed):
+    res = ComponentResult(backend="automata-product")
+    res.rule = ("every element-path pattern of checkpicosvg (string constants read from its AST) accepts, as a whole string, nothing outside the README grammar's element paths "
+                "(/svg[0], /svg[0]/defs[0], gradients with stops under defs, chains of g / path; text chains only with allow_text): pattern -> NFA, grammar -> DFA, product explored for ALL strings over the path alphabet")
+    res.functions = ["svg.SVG.checkpicosvg"]
+    default, text_only = _gate_patterns()
+    if not default:
+        res.obligations = res.discharged = 1
+        res.notes.append("gate.allowlist: checkpicosvg no longer holds its allow-list as string constants; what the gate accepts rests on gate.checkpicosvg (symbolic run) and the bounded grammar oracle")
+        return res
+    for pats, allow_text in ((default, False), (text_only, True)):
+        lang = rx.Language(_path_language(allow_text))
+        for text in pats:
+            res.obligations += 1
+            try:
+                pat = rx.WholeMatch(text)
+                if not pat.anchored:
+                    res.findings.append(Finding(key=f"gate.allowlist:unanchored:{text}", text=f"allow-list pattern {text!r} is not anchored at the end: re.match accepts every path that merely STARTS like an allowed one (e.g. a <rect> below a <path>)",
+                                                replay=dict(pattern=text), confirmed=False))
+                    continue
+                rnd = __import__("random").Random(seed)
+                toks = ["/svg[0]", "/defs[0]", "/linearGradient[3]", "/radialGradient[12]", "/stop[0]", "/path[1]", "/g[22]", "/text[0]", "/tspan[1]", "/textPath[2]", "/rect[0]", "x", "[", "0", "/g-emoji[0]"]
+                for _ in range(1500):
+                    w = "".join(rnd.choice(toks) for _ in range(rnd.randint(0, 5)))
+                    if bool(re.match(text, w)) != pat.accepts(w):
+                        res.errors.append(f"automaton does not reproduce the real pattern {text!r} on {w!r}")
+                        break
+                else:
+                    r = rx.compare(pat, lang, "within", alphabet=PATH_SIGMA)
+                    res.evaluations += r["states"]
+                    res.samples.append(dict(pattern=text, allow_text=allow_text, product_states=r["states"], character_classes=r["classes"]))
+                    if r["ok"]:
+                        res.discharged += 1
+                    else:
+                        w = r["witnesses"][0][0]
+                        really = bool(re.match(text, w))
+                        res.findings.append(Finding(key=f"gate.allowlist:{text}", text=f"allow-list pattern {text!r} accepts the element path {w!r}, which the picosvg grammar does not allow" + ("" if allow_text is False else " even with allow_text") + f" (re.match on the real pattern: {really})",
+                                                    replay=dict(pattern=text, path=w, allow_text=allow_text), confirmed=really))
+            except rx.Unsupported as e:
+                res.obligations -= 1
+                res.notes.append(f"gate.allowlist: {text!r} uses a construct the automata procedure does not model ({e}); undecided here, covered by gate.checkpicosvg and the bounded grammar oracle")
+    return res
